@@ -191,7 +191,8 @@ def reflective(prop, tier, seed, oracle_module, level_note, extra_obligations=No
         print('KNOWN-FINDING: property=%s %s' % (prop, k['what']))
     coverage = dict(
         obligations=len(ores), discharged=discharged, theorems=theorems or [],
-        checker_cmd='tools/check.py %s --tier %s  (gen.py -> mkprops.py -> coqc of coq/gprops/%s_*.v against coq/theories)' % (prop, tier, prop),
+        checker_cmd='./check %s --tier %s   (regenerates the model from /repo with tools/gen.py [+ mkprops.py / gen_obj.py / gen_eff.py], then full coqc builds of the files listed in obligation_files against coq/theories, Print Assumptions gate, harness)' % (prop, tier),
+        obligation_files=[o for o in obl],
         trusted_base=TRUSTED_BASE + [level_note],
         axioms=sorted(axioms), primitive_float_operations=sorted(prims), coqchk=coqchk_info, programs=len(man.get('programs', {})),
         model_nodes=sum(v['nodes'] for v in man.get('programs', {}).values()),
